@@ -41,6 +41,8 @@ def run(ctx):
         r = ctx.model_check("AtomicWrite", MC_CFG % ("tmp+rename", had), name="AtomicWrite-exh-%s" % had, workers=2)
         states += r["distinct"]; trans += r["generated"]
     ctx.model_check("AtomicWrite", MC_CFG % ("inplace", "TRUE"), name="AtomicWrite-defect-inplace", workers=2, expect_violation=("Intact", "ReportsFailure"))
+    # unbounded safety of the conforming design: TLAPS proof that temp-file + rename keeps the target intact
+    ctx.tlaps("AtomicWriteProof")
     tr = os.path.join(ctx.work, "atomic.ndjson")
     i = ctx.run_vh(["atomic-run", "-out", tr, "-every", 9 if q else 1], timeout=3000)
     ok, rej = ctx.validate_traces(tr, "TraceAtomic", TRACE_CFG, max_rejects=8)
